@@ -195,9 +195,16 @@ class RestAPI(object):
             try:
                 params = json.loads(data.decode("utf8"))
             except ValueError as e:
-                params = ""
+                params = {}
                 self.logger.error(
                     "Message body {} does not contain valid JSON".format(data)
+                )
+
+            if not isinstance(params, dict):
+                # The handlers expect a JSON object of named parameters.
+                params = {}
+                self.logger.error(
+                    "Message body {} is not a JSON object".format(data)
                 )
 
             # ------------------------------------------------------------------
